@@ -65,6 +65,40 @@ pub fn decode(method: u16, data: &[u8], limit: usize) -> Option<Result<Vec<u8>, 
     Some(r.map(|_| out))
 }
 
+/// decode without materialising the output: (decoded length, CRC-32) - for entries whose decoded size is huge
+/// (a few MiB of deflate can stand for more than 4 GiB of zeros)
+pub fn decode_len_crc(method: u16, data: &[u8]) -> Option<Result<(u64, u32), String>> {
+    use std::io::Read;
+    let mut rd: Box<dyn Read + '_> = match method {
+        0 => Box::new(data),
+        8 => Box::new(flate2::read::DeflateDecoder::new(data)),
+        12 => Box::new(bzip2::read::BzDecoder::new(data)),
+        93 => match zstd::stream::read::Decoder::new(data) {
+            Ok(d) => Box::new(d),
+            Err(e) => return Some(Err(e.to_string())),
+        },
+        _ => return None,
+    };
+    let mut crc = crate::content::Crc::new();
+    let mut n = 0u64;
+    let mut buf = vec![0u8; 1 << 20];
+    loop {
+        match rd.read(&mut buf) {
+            Ok(0) => break,
+            Ok(k) => {
+                crc.update(&buf[..k]);
+                n += k as u64;
+                if n > 1 << 36 {
+                    return Some(Err("decodes to more than 64 GiB".into()));
+                }
+            }
+            Err(e) if e.kind() == std::io::ErrorKind::Interrupted => {}
+            Err(e) => return Some(Err(e.to_string())),
+        }
+    }
+    Some(Ok((n, crc.finish())))
+}
+
 /// encode with the codec crates directly (for the builder)
 pub fn encode(method: u16, level: i32, data: &[u8]) -> Vec<u8> {
     use std::io::Write;
